@@ -8,6 +8,7 @@
 //!
 //! Output: one line `WITNESS <json>` for the first divergence found (exit 1), or `NO-WITNESS <stats>` (exit 0).
 mod rpc;
+mod mounted;
 use bytes::Bytes;
 use deltio::paging::Paging;
 use deltio::subscriptions::subscription_manager::SubscriptionManager;
@@ -306,7 +307,11 @@ async fn run_history(ops: &[Op], ack_deadline_s: u64, uptime_days: u64) -> Resul
         // observable state after every turn
         let stats = sub.get_stats().await.map_err(|_| setup("stats"))?;
         if stats.outstanding_messages_count != m.leases.len() + m.ghosts.len() || stats.backlog_messages_count != m.pending.len() {
-            return fail(stats_tag, format!("stats outstanding/backlog = {}/{}, expected {}/{}", stats.outstanding_messages_count, stats.backlog_messages_count, m.leases.len() + m.ghosts.len(), m.pending.len()));
+            // a message held nowhere is lost: it can no longer be redelivered (C01 "until acknowledged", C04 "becomes available
+            // for redelivery"); anything else is attributed to the kind of step that produced it
+            let (have, want) = (stats.outstanding_messages_count + stats.backlog_messages_count, m.leases.len() + m.ghosts.len() + m.pending.len());
+            let tag = if have < want { "C01+C04" } else { stats_tag };
+            return fail(tag, format!("stats outstanding/backlog = {}/{}, expected {}/{}", stats.outstanding_messages_count, stats.backlog_messages_count, m.leases.len() + m.ghosts.len(), m.pending.len()));
         }
         let stats2 = sub2.get_stats().await.map_err(|_| setup("stats"))?;
         if stats2.outstanding_messages_count != 0 || stats2.backlog_messages_count != m.published.len() {
@@ -579,7 +584,7 @@ fn cmd_paging(n: usize) -> i32 {
 // lifecycle histories over a small pool of names: namespaces as maps (C10), deletion consistency (C11),
 // global id uniqueness (C09), fan-out to exactly the attached subscriptions (C01), listing order (C13)
 #[derive(Clone, Debug)]
-enum LOp { CreateTopic(usize), DeleteTopic(usize, bool), CreateSub(usize, usize, bool), RaceCreateSub(usize, usize), DeleteSub(usize), Publish(usize, u8), DropHandles, DeleteHeld }
+enum LOp { CreateTopic(usize), DeleteTopic(usize, bool), CreateSub(usize, usize, bool), RaceCreateSub(usize, usize), DeleteSub(usize), Publish(usize, u8), DropHandles, DeleteHeld, CreateSubHeld(usize) }
 fn lop_json(o: &LOp) -> String {
     match o {
         LOp::CreateTopic(t) => format!("[\"create_topic\",{}]", t),
@@ -590,6 +595,7 @@ fn lop_json(o: &LOp) -> String {
         LOp::Publish(t, n) => format!("[\"publish\",{},{}]", t, n),
         LOp::DropHandles => "[\"drop_handles\"]".to_string(),
         LOp::DeleteHeld => "[\"delete_held\"]".to_string(),
+        LOp::CreateSubHeld(s) => format!("[\"create_sub_held\",{}]", s),
     }
 }
 fn lops_json(v: &[LOp]) -> String { format!("[{}]", v.iter().map(lop_json).collect::<Vec<_>>().join(",")) }
@@ -608,6 +614,7 @@ fn parse_lops(s: &str) -> Vec<LOp> {
             "publish" => out.push(LOp::Publish(n(1), n(2) as u8)),
             "drop_handles" => out.push(LOp::DropHandles),
             "delete_held" => out.push(LOp::DeleteHeld),
+            "create_sub_held" => out.push(LOp::CreateSubHeld(n(1))),
             _ => {}
         }
     }
@@ -626,7 +633,7 @@ async fn run_lifecycle(ops: &[LOp]) -> Result<(), Fail> {
     let mut subs: Vec<SRec> = (0..3).map(|_| SRec { alive: false, backlog: 0, order: 0, topic: 0, topic_gen: 0 }).collect();
     let mut clock = 0u64;
     let mut all_ids: Vec<u64> = Vec::new();
-    let mut held: Vec<Arc<Topic>> = Vec::new();
+    let mut held: Vec<(usize, Arc<Topic>)> = Vec::new();
     for (k, op) in ops.iter().enumerate() {
         let fail = |prop: &'static str, what: String| Err(Fail { prop, what: format!("step {} {}: {}", k, lop_json(op), what) });
         clock += 1;
@@ -642,7 +649,7 @@ async fn run_lifecycle(ops: &[LOp]) -> Result<(), Fail> {
                     if h.delete().await.is_err() { return fail("C11", "DeleteTopic failed".into()); }
                     topics[*t].alive = false;
                     topics[*t].subs.clear();
-                    if *keep { held.push(h); }
+                    if *keep { held.push((*t, h)); }
                 } else if topics[*t].alive { return fail("C10", "get_topic does not find a live topic".into()); }
                 if tm.get_topic(&tname(*t)).is_ok() { return fail("C10+C11", "topic still present after DeleteTopic returned".into()); }
             }
@@ -697,15 +704,32 @@ async fn run_lifecycle(ops: &[LOp]) -> Result<(), Fail> {
                 }
             }
             LOp::DropHandles => { held.clear(); }
+            LOp::CreateSubHeld(s) => {
+                // CreateSubscription racing DeleteTopic: the handler looked the topic up, the topic was deleted, then the
+                // create runs with the handle of the deleted incarnation. Whatever the outcome, it is all-or-nothing (C10).
+                if let Some((t, h)) = held.first() {
+                    let r = sm.create_subscription(SubscriptionInfo::new_with_defaults(sname(*s, false)), Arc::clone(h)).await;
+                    let present = sm.get_subscription(&sname(*s, false)).is_ok();
+                    if subs[*s].alive {
+                        if r.is_ok() { return fail("C10", "create subscription returned Ok although the name is present".into()); }
+                    } else if r.is_ok() != present {
+                        return fail("C10", format!("create subscription on a topic deleted in the meantime returned {} but the subscription is {} afterwards",
+                            if r.is_ok() { "Ok" } else { "an error" }, if present { "present (half-created resource)" } else { "absent" }));
+                    } else if r.is_ok() {
+                        // exists, bound to a deleted incarnation: not listed under any live topic, receives nothing
+                        subs[*s] = SRec { alive: true, backlog: 0, order: clock, topic: *t, topic_gen: 0 };
+                    }
+                }
+            }
             LOp::DeleteHeld => {
                 // a late, duplicate DeleteTopic addressed to handles of already deleted incarnations: must be a no-op
-                for h in held.iter() { let _ = h.delete().await; }
+                for (_, h) in held.iter() { let _ = h.delete().await; }
             }
         }
         // ---- observable state after every step; a wrong SET of resources is attributed to the kind of step that
         // produced it (create -> C10, delete -> C11), a wrong ORDER of the right set to C13
         let state_tag: &'static str = match op {
-            LOp::CreateTopic(_) | LOp::CreateSub(_, _, _) | LOp::RaceCreateSub(_, _) => "C10",
+            LOp::CreateTopic(_) | LOp::CreateSub(_, _, _) | LOp::RaceCreateSub(_, _) | LOp::CreateSubHeld(_) => "C10",
             LOp::DeleteTopic(_, _) | LOp::DeleteSub(_) | LOp::DeleteHeld | LOp::DropHandles => "C11",
             LOp::Publish(_, _) => "C01",
         };
@@ -746,7 +770,7 @@ async fn run_lifecycle(ops: &[LOp]) -> Result<(), Fail> {
     Ok(())
 }
 fn gen_lops(rng: &mut Rng, steps: usize) -> Vec<LOp> {
-    (0..steps).map(|_| match rng.below(14) {
+    (0..steps).map(|_| match rng.below(15) {
         0 | 1 | 2 => LOp::CreateTopic(rng.below(2) as usize),
         3 => LOp::DeleteTopic(rng.below(2) as usize, rng.below(2) == 0),
         4 | 5 | 6 => LOp::CreateSub(rng.below(3) as usize, rng.below(2) as usize, rng.below(6) == 0),
@@ -754,6 +778,7 @@ fn gen_lops(rng: &mut Rng, steps: usize) -> Vec<LOp> {
         8 | 9 => LOp::DeleteSub(rng.below(3) as usize),
         10 | 11 => LOp::Publish(rng.below(2) as usize, 1 + rng.below(2) as u8),
         12 => LOp::DeleteHeld,
+        13 => LOp::CreateSubHeld(rng.below(3) as usize),
         _ => LOp::DropHandles,
     }).collect()
 }
@@ -855,6 +880,57 @@ fn cmd_order(rounds: usize) -> i32 {
     0
 }
 
+// ------------------------------------------------------------------------------------------------
+// C13 / C17: the page-token codec (src/api/page_token.rs, mounted by path). Every token the server can issue for an
+// offset must be accepted back and denote that offset (else a walk cannot be continued); arbitrary strings never panic.
+fn cmd_tokens(log2: u32) -> i32 {
+    use mounted::page_token::PageToken;
+    std::panic::set_hook(Box::new(|_| {}));
+    let check = |v: usize| -> Result<(), String> {
+        let r = std::panic::catch_unwind(|| { let t = PageToken::new(v).encode(); (t.clone(), PageToken::try_decode(&t).map(usize::from)) });
+        match r {
+            Err(_) => Err(format!("offset {}: the codec panicked", v)),
+            Ok((t, None)) => Err(format!("the token {:?} issued for offset {} is rejected as undecodable", t, v)),
+            Ok((t, Some(w))) if w != v => Err(format!("the token {:?} issued for offset {} decodes to offset {}", t, v, w)),
+            _ => Ok(()),
+        }
+    };
+    let mut n = 0u64;
+    let mut run = |v: usize| -> Option<String> { n += 1; check(v).err() };
+    let mut bad: Option<String> = None;
+    // every offset below 2^log2, every byte value at every byte position over three backgrounds, and random 64-bit offsets
+    for v in 0..(1usize << log2) { if let Some(e) = run(v) { bad = Some(e); break; } }
+    if bad.is_none() {
+        'outer: for bg in [0u8, 0xFF, 0xA5] { for pos in 0..std::mem::size_of::<usize>() { for b in 0..=255u8 {
+            let mut bytes = [bg; std::mem::size_of::<usize>()];
+            bytes[pos] = b;
+            if let Some(e) = run(usize::from_ne_bytes(bytes)) { bad = Some(e); break 'outer; }
+        } } }
+    }
+    if bad.is_none() {
+        let mut rng = Rng(0x5EED_5EED_5EED_5EED);
+        for _ in 0..200_000 { if let Some(e) = run(rng.next() as usize) { bad = Some(e); break; } }
+    }
+    if let Some(e) = bad {
+        let also = if e.contains("panicked") { ",\"also\":[\"C17\"]" } else { "" };
+        println!("WITNESS {{\"kind\":\"tokens\",\"property\":\"C13\"{},\"observed\":{:?}}}", also, e);
+        return 1;
+    }
+    // hostile strings: decoding never panics (C17)
+    let alphabet: Vec<char> = "AB+/-_=9 \u{e9}\n".chars().collect();
+    let mut rng = Rng(0xC0FFEE);
+    for _ in 0..200_000 {
+        let len = rng.below(16) as usize;
+        let sx: String = (0..len).map(|_| alphabet[rng.below(alphabet.len() as u64) as usize]).collect();
+        if std::panic::catch_unwind(|| PageToken::try_decode(&sx).map(usize::from)).is_err() {
+            println!("WITNESS {{\"kind\":\"tokens\",\"property\":\"C17\",\"also\":[\"C13\"],\"observed\":{:?}}}", format!("decoding the page token {:?} panics", sx));
+            return 1;
+        }
+    }
+    println!("NO-WITNESS tokens offsets={} hostile=200000", n);
+    0
+}
+
 fn main() {
     // The rounding EPOCH of AckDeadline is a process-wide lazy static fixed by the first AckDeadline::new call. Fix it
     // at process start, before any (paused) runtime advances its virtual clock: every later runtime starts its clock at
@@ -867,6 +943,7 @@ fn main() {
         Some("paging") => cmd_paging(args[2].parse().unwrap()),
         Some("lifecycle") => cmd_lifecycle(args[2].parse().unwrap(), args[3].parse().unwrap(), args[4].parse().unwrap()),
         Some("order") => cmd_order(args[2].parse().unwrap()),
+        Some("tokens") => cmd_tokens(args[2].parse().unwrap()),
         Some("rpc") => rpc::run_all(),
         Some("run-lifecycle") => {
             let ops = parse_lops(&args[2]);
